@@ -24,6 +24,7 @@ func runC01(r *vf.Run) {
 	if r.Want("nul-column") {
 		r.Guard("nul-column", func() { nulColumnProbe(r) })
 	}
+	racePass(r)
 	r.Floor("all 6 writer/open matrix cells exercised", r.Covered("matrix_cells") == 6)
 	r.Floor("datasets at the container boundaries 4096 and 65536", r.HasCover("row_counts_boundary", "4096") && r.HasCover("row_counts_boundary", "65536"))
 	r.Floor("NOT over a leaf evaluated", r.GetCount("not_over_leaf_queries") > 0)
@@ -71,6 +72,7 @@ func runC02(r *vf.Run) {
 		"(membership, counts, order, per-group column order, strict ordering, no zero counts); distinct_nontrivial = distinct (dataset, expression shape, list length, node count)")
 	r.Assume("64-bit xxhash collisions do not occur", "group tuple space capped at ~20000 per query")
 	runDiff(r, true)
+	racePass(r)
 	for ln := 0; ln <= 6; ln++ {
 		r.Floor(fmt.Sprintf("group-by list of length %d evaluated", ln), r.HasCover("groupby_lengths", fmt.Sprint(ln)))
 	}
